@@ -776,4 +776,301 @@ theorem allocs_spec (hist : List (Env × Req)) (s : Sys) (w : WfSys s) :
           exact ⟨fun h => this.1 (List.mem_append_left _ h), this.2.1,
             fun k' hk' => this.2.2.1 k' (List.mem_append_left _ hk'), this.2.2.2⟩
 
+/-- a line the legacy reader turns into a result -/
+def isResultLine (l : Bytes) : Bool := (parseKV l).isNone && (benchName l).isSome
+
+theorem readResults_nil_iff (perm : Labels) (lines : List Bytes) (labels : Labels) :
+    readResults perm lines labels = [] ↔ ∀ l ∈ lines, isResultLine l = false := by
+  induction lines generalizing labels with
+  | nil => simp [readResults]
+  | cons l rest ih =>
+    simp only [readResults]
+    cases hkv : parseKV l with
+    | some kv =>
+      obtain ⟨k, v⟩ := kv
+      simp only []
+      have : isResultLine l = false := by simp [isResultLine, hkv]
+      split
+      · rw [ih]; simp [this]
+      · split
+        · rw [ih]; simp [this]
+        · rw [ih]; simp [this]
+    | none =>
+      simp only []
+      cases hb : benchName l with
+      | some name => simp [isResultLine, hkv, hb]
+      | none =>
+        simp only []
+        have : isResultLine l = false := by simp [isResultLine, hkv, hb]
+        rw [ih]; simp [this]
+
+/-- a part that lets the loop go on -/
+def partOk : Part → Prop
+  | Part.field name => name = commitWord
+  | Part.file _ content cut _ => cut = false ∧ ∃ l ∈ splitLines content, isResultLine l = true
+
+theorem indexFile_ok (env : Env) (f : Option Fault) (r : Run) (t : Tx) (x : FileIn)
+    (h : (indexFile env f r t x).2.2 = none) : x.cut = false ∧ ∃ l ∈ splitLines x.content, isResultLine l = true := by
+  unfold indexFile at h
+  simp only at h
+  split at h
+  · simp at h
+  · split at h
+    · simp [failFile] at h
+    · split at h
+      · simp [failFile] at h
+      · split at h
+        · simp [failFile] at h
+        · split at h
+          · simp [failFile] at h
+          · rename_i hcut
+            split at h
+            · simp [failFile] at h
+            · rename_i hres
+              refine ⟨by simpa using hcut, ?_⟩
+              have : ¬ (∀ l ∈ splitLines x.content, isResultLine l = false) := by
+                rw [← readResults_nil_iff (mkMeta env t.id x.idx x.fname) _ (mkMeta env t.id x.idx x.fname)]
+                simpa using hres
+              simpa using this
+
+theorem runParts_ok (env : Env) (f : Option Fault) (ps : List Part) (i : Nat) (r : Run)
+    (h : (runParts env f ps i r).2 = none) : ∀ p ∈ ps, partOk p := by
+  induction ps generalizing i r with
+  | nil => simp
+  | cons p ps ih =>
+    cases p with
+    | field name =>
+      simp only [runParts] at h
+      split at h
+      · rename_i hn
+        intro p hp
+        rcases List.mem_cons.mp hp with rfl | hp
+        · simpa [partOk] using hn
+        · exact ih _ _ h p hp
+      · simp at h
+    | file fname content cut chunks =>
+      have key : ∀ (r1 : Run) (t : Tx),
+          let res := indexFile env f r1 t ⟨i, fname, content, cut, chunks⟩
+          let r2 : Run := { res.1 with tx := some res.2.1 }
+          let out := match res.2.2 with
+            | some e => (r2, some e)
+            | none => runParts env f ps (i + 1) { r2 with fileids := r2.fileids ++ [(⟨t.id, i⟩ : Path)] }
+          out.2 = none → ∀ p ∈ Part.file fname content cut chunks :: ps, partOk p := by
+        intro r1 t res r2 out hout
+        cases he : res.2.2 with
+        | some e => simp [out, he] at hout
+        | none =>
+          have h1 := indexFile_ok env f r1 t ⟨i, fname, content, cut, chunks⟩ he
+          have hout' : (runParts env f ps (i + 1) { r2 with fileids := r2.fileids ++ [(⟨t.id, i⟩ : Path)] }).2 = none := by
+            simpa [out, he] using hout
+          intro p hp
+          rcases List.mem_cons.mp hp with rfl | hp
+          · exact h1
+          · exact ih _ _ hout' p hp
+      simp only [runParts] at h
+      cases htx : r.tx with
+      | some t => rw [htx] at h; exact key r t h
+      | none =>
+        rw [htx] at h
+        simp only [] at h
+        cases hal : allocId env.day r.uploads with
+        | none => rw [hal] at h; simp at h
+        | some k =>
+          rw [hal] at h
+          exact key ⟨r.uploads ++ [k], r.fs, none, r.opc, r.trace, r.fileids, r.inprog⟩ { id := k } h
+
+/-- **fault_is_reported** (content and protocol faults): a request whose part stream ends with an
+error, or contains a part reader failure (body cut), an unknown form field, or a file without any
+benchmark line, is answered with an error. -/
+theorem structural_fault_is_error (env : Env) (req : Req) (s : Sys)
+    (hf : req.endErr = true ∨ ∃ p ∈ req.parts, ¬ partOk p) :
+    ∃ e, (processUpload env req s).resp = .error e := by
+  rcases processUpload_cases env req s with ⟨e, h⟩ | ⟨t, t', h2, hE, _, _, _⟩
+  · exact ⟨e, by rw [h]; rfl⟩
+  · exfalso
+    rcases hf with hf | ⟨p, hp, hnot⟩
+    · rw [hE] at hf; cases hf
+    · exact hnot (runParts_ok env req.fault req.parts 0 _ h2 p hp)
+theorem doWrites_ok (f : Option Fault) (ws : List Bytes) (opc : Nat) (h : (doWrites f ws opc).1 = false) :
+    (doWrites f ws opc).2.1 = opc + ws.length ∧ (doWrites f ws opc).2.2.1 = ws.flatten ∧
+      ∀ j, opc ≤ j → j < opc + ws.length → failsAt f j = false := by
+  induction ws generalizing opc with
+  | nil => simp [doWrites]; intro j h1 h2; omega
+  | cons w ws ih =>
+    simp only [doWrites] at h ⊢
+    split at h
+    · simp at h
+    · rename_i hf
+      simp only at h
+      rw [if_neg hf]
+      have := ih (opc + 1) h
+      refine ⟨by simp only [List.length_cons]; omega, by simp [this.2.1], ?_⟩
+      intro j h1 h2
+      by_cases hj : j = opc
+      · subst hj; simpa using hf
+      · exact this.2.2 j (by omega) (by simp only [List.length_cons] at h2; omega)
+
+theorem insertSorted_length (x : Bytes × Bytes) (l : Labels) : (insertSorted x l).length = l.length + 1 := by
+  induction l with
+  | nil => rfl
+  | cons y ys ih =>
+    simp only [insertSorted]
+    split
+    · simp
+    · simp [ih]
+
+theorem sortLabels_length (l : Labels) : (sortLabels l).length = l.length := by
+  induction l with
+  | nil => rfl
+  | cons x xs ih => simp [sortLabels, List.foldr, insertSorted_length] at ih ⊢; exact ih
+
+/-- number of metadata header lines -/
+def nkeys (env : Env) (fname : Bytes) : Nat :=
+  3 + (if fname.isEmpty then 0 else 1) + (if env.user.isEmpty then 0 else 1)
+
+theorem mkMeta_length (env : Env) (k : UKey) (i : Nat) (fname : Bytes) : (mkMeta env k i fname).length = nkeys env fname := by
+  unfold mkMeta nkeys
+  split <;> split <;> simp
+
+/-- file-store calls a fault-free run makes for one file: NewWriter, header lines and separator,
+one Write per read, Close -/
+def fileOps (env : Env) (fname content : Bytes) (chunks : List Nat) : Nat :=
+  1 + (nkeys env fname + 1) + (splitChunks content chunks).length + 1
+
+def opsOf (env : Env) : List Part → Nat
+  | [] => 0
+  | Part.field _ :: ps => opsOf env ps
+  | Part.file fname content _ chunks :: ps => fileOps env fname content chunks + opsOf env ps
+
+theorem indexFile_opc (env : Env) (f : Option Fault) (r : Run) (t : Tx) (x : FileIn)
+    (h : (indexFile env f r t x).2.2 = none) :
+    (indexFile env f r t x).1.opc = r.opc + fileOps env x.fname x.content x.chunks ∧
+      ∀ j, r.opc ≤ j → j < r.opc + fileOps env x.fname x.content x.chunks → failsAt f j = false := by
+  unfold indexFile at h ⊢
+  simp only at h ⊢
+  split at h
+  · simp at h
+  · rename_i hnw
+    split at h
+    · simp [failFile] at h
+    · rename_i hh
+      have hw := doWrites_ok f _ _ (by simpa using hh)
+      simp only [List.length_append, List.length_map, sortLabels_length, mkMeta_length, List.length_cons,
+        List.length_nil] at hw
+      split at h
+      · simp [failFile] at h
+      · rename_i hb
+        have hbw := doWrites_ok f _ _ (by simpa using hb)
+        split at h
+        · simp [failFile] at h
+        · split at h
+          · simp [failFile] at h
+          · split at h
+            · simp [failFile] at h
+            · split at h
+              · simp at h
+              · rename_i hcl
+                rw [if_neg hnw, if_neg hh, if_neg hb]
+                rw [if_neg (by assumption), if_neg (by assumption), if_neg hcl]
+                dsimp only
+                rw [hbw.1, hw.1]
+                refine ⟨by unfold fileOps; omega, ?_⟩
+                intro j h1 h2
+                unfold fileOps at h2
+                by_cases hj0 : j = r.opc
+                · subst hj0; simpa using hnw
+                · by_cases hj1 : j < r.opc + 1 + (nkeys env x.fname + 0 + 1)
+                  · exact hw.2.2 j (by omega) (by omega)
+                  · by_cases hj2 : j < r.opc + 1 + (nkeys env x.fname + 0 + 1) + (splitChunks x.content x.chunks).length
+                    · refine hbw.2.2 j ?_ ?_
+                      · rw [hw.1]; omega
+                      · rw [hw.1]; omega
+                    · have : j = (doWrites f (splitChunks x.content x.chunks)
+                          (doWrites f (List.map headerLine (sortLabels (mkMeta env t.id x.idx x.fname)) ++ [[10]]) (r.opc + 1)).2.1).2.1 := by
+                        rw [hbw.1, hw.1]; omega
+                      rw [this]; simpa using hcl
+theorem runParts_opc (env : Env) (f : Option Fault) (ps : List Part) (i : Nat) (r : Run)
+    (h : (runParts env f ps i r).2 = none) :
+    ∀ j, r.opc ≤ j → j < r.opc + opsOf env ps → failsAt f j = false := by
+  induction ps generalizing i r with
+  | nil => intro j h1 h2; simp [opsOf] at h2; omega
+  | cons p ps ih =>
+    cases p with
+    | field name =>
+      simp only [runParts] at h
+      split at h
+      · simpa [opsOf] using ih _ _ h
+      · simp at h
+    | file fname content cut chunks =>
+      have key : ∀ (r1 : Run) (t : Tx), r1.opc = r.opc →
+          let res := indexFile env f r1 t ⟨i, fname, content, cut, chunks⟩
+          let r2 : Run := { res.1 with tx := some res.2.1 }
+          let out := match res.2.2 with
+            | some e => (r2, some e)
+            | none => runParts env f ps (i + 1) { r2 with fileids := r2.fileids ++ [(⟨t.id, i⟩ : Path)] }
+          out.2 = none → ∀ j, r.opc ≤ j → j < r.opc + opsOf env (Part.file fname content cut chunks :: ps) →
+            failsAt f j = false := by
+        intro r1 t hopc res r2 out hout
+        cases he : res.2.2 with
+        | some e => simp [out, he] at hout
+        | none =>
+          have h1 := indexFile_opc env f r1 t ⟨i, fname, content, cut, chunks⟩ he
+          dsimp only at h1
+          have hout' : (runParts env f ps (i + 1) { r2 with fileids := r2.fileids ++ [(⟨t.id, i⟩ : Path)] }).2 = none := by
+            simpa [out, he] using hout
+          have h2 := ih _ _ hout'
+          intro j hj1 hj2
+          simp only [opsOf] at hj2
+          by_cases hlt : j < r.opc + fileOps env fname content chunks
+          · exact h1.2 j (by omega) (by rw [hopc]; exact hlt)
+          · refine h2 j ?_ ?_
+            · show (indexFile env f r1 t ⟨i, fname, content, cut, chunks⟩).1.opc ≤ j
+              have := h1.1; omega
+            · show j < (indexFile env f r1 t ⟨i, fname, content, cut, chunks⟩).1.opc + opsOf env ps
+              have := h1.1; omega
+      simp only [runParts] at h
+      cases htx : r.tx with
+      | some t => rw [htx] at h; exact key r t rfl h
+      | none =>
+        rw [htx] at h
+        simp only [] at h
+        cases hal : allocId env.day r.uploads with
+        | none => rw [hal] at h; simp at h
+        | some k =>
+          rw [hal] at h
+          exact key ⟨r.uploads ++ [k], r.fs, none, r.opc, r.trace, r.fileids, r.inprog⟩ { id := k } rfl h
+
+/-- a file-store fault (create, write or close; once or persistent) at any of the calls a fault-free
+run of the request would make is answered with an error -/
+theorem fs_fault_is_error (env : Env) (req : Req) (s : Sys) (ft : Fault) (hf : req.fault = some ft)
+    (hk : ft.k < opsOf env req.parts) : ∃ e, (processUpload env req s).resp = .error e := by
+  rcases processUpload_cases env req s with ⟨e, h⟩ | ⟨t, t', h2, _, _, _, _⟩
+  · exact ⟨e, by rw [h]; rfl⟩
+  · exfalso
+    have := runParts_opc env req.fault req.parts 0 _ h2 ft.k (Nat.zero_le _) (by simpa using hk)
+    rw [hf] at this
+    simp only [failsAt] at this
+    split at this <;> simp at this
+
+/-- no file part at all ("no files processed") -/
+theorem no_file_is_error (env : Env) (req : Req) (s : Sys)
+    (hn : ∀ p ∈ req.parts, ∃ name, p = Part.field name) : ∃ e, (processUpload env req s).resp = .error e := by
+  rcases processUpload_cases env req s with ⟨e, h⟩ | ⟨t, t', _, _, htx, _, _⟩
+  · exact ⟨e, by rw [h]; rfl⟩
+  · exfalso
+    have : ∀ (ps : List Part) (i : Nat) (r : Run), (∀ p ∈ ps, ∃ name, p = Part.field name) → r.tx = none →
+        (runParts env req.fault ps i r).1.tx = none := by
+      intro ps
+      induction ps with
+      | nil => intro i r _ h; simpa [runParts] using h
+      | cons p ps ih =>
+        intro i r hall h
+        obtain ⟨name, rfl⟩ := hall p (by simp)
+        simp only [runParts]
+        split
+        · exact ih _ _ (fun p hp => hall p (List.mem_cons_of_mem _ hp)) h
+        · exact h
+    have := this req.parts 0 ⟨s.db.uploads, s.fs, none, 0, [], [], none⟩ hn rfl
+    unfold run0 at htx
+    rw [this] at htx; cases htx
 end C20
